@@ -27,6 +27,7 @@ type act struct {
 	U    uint64   `json:"u,omitempty"`    // uint64 parameter (SetUInt64, CSelect condition, mutation selector)
 	Data string   `json:"data,omitempty"` // bytes parameter (invalid encodings, messages, entropy)
 	Step *pt.Step `json:"step,omitempty"` // e.repr: a value-preserving change of representation (white-box builds)
+	Z    bool     `json:"z,omitempty"`    // setters only: the receiver variable is first replaced by a zero-value struct
 }
 
 type caseC10 struct {
@@ -48,6 +49,10 @@ func genAct(t *rapid.T) act {
 		a.Op = elemOps[gen.Pick(t, "eop", len(elemOps))]
 	} else {
 		a.Op = scalOps[gen.Pick(t, "sop", len(scalOps))]
+	}
+	switch a.Op {
+	case "e.base", "e.identity", "e.set", "e.decode", "e.decodeunc", "e.mulnil":
+		a.Z = gen.Chance(t, "zeroValue", 1, 4)
 	}
 	switch a.Op {
 	case "s.setu64":
@@ -155,6 +160,10 @@ func runC10(c caseC10, o *gen.Obs) error {
 	for step, a := range c.Acts {
 		r, x, y := a.R, a.A, a.B
 		o.Class("act:" + a.Op)
+		if a.Z && r != x {
+			st.E[r] = new(secp256k1.Element) // a zero-value struct as receiver of a setter
+			o.Class("zero-value-receiver")
+		}
 		switch a.Op {
 		case "e.base":
 			st.E[r].Base()
